@@ -66,7 +66,7 @@ func TestC08(t *testing.T) {
 		return ok, true
 	}
 
-	nTrees := r.N(12, 160)
+	nTrees := r.N(36, 300)
 	maxBlocks := r.N(60, 110)
 	type job struct {
 		kind string
@@ -89,6 +89,12 @@ func TestC08(t *testing.T) {
 		sc := map[string]any{"kind": kind, "trace": &trace}
 		guard(r, caseID, sc, func() {
 			h := newHistory(kind, g)
+			if kind == "bridge" && i%3 == 0 {
+				// few distinct leaf values: identical sub-trees at several aligned positions, so that
+				// content-addressed nodes are shared between old and new (possibly reorged) roots
+				h.dupPct = 90
+				sc["few_distinct_leaves"] = true
+			}
 			s, err := newFaultStore(kind, "c08")
 			if err != nil {
 				r.Inconclusive("cannot open store: " + err.Error())
